@@ -177,23 +177,28 @@ theorem Inv.modifyTasks {s : State} (h : Inv s) (f : Task → Task) (k : Nat)
         exact ⟨f t, by simp [hk], by rw [hout]; exact ho'⟩
       · exact ⟨t', by simp [hkk, ht'], ho'⟩
 
-theorem Inv.dispatch {s : State} (h : Inv s) (i : Val) : Inv (dispatchStep s i) := by
+theorem Inv.dispatchCore {s : State} (h : Inv s) (i : Val) : Inv (dispatchCore s i) := by
   constructor
-  · simp [dispatchStep, countP_append, countP, Task.unfinished, h.inFlight]
-  · simp [dispatchStep, countP_append, countP, Task.completed, h.version]
+  · simp [Action.dispatchCore, countP_append, countP, Task.unfinished, h.inFlight]
+  · simp [Action.dispatchCore, countP_append, countP, Task.completed, h.version]
   · exact h.logCount
   · exact h.value
-  · simp [dispatchStep]
+  · simp [Action.dispatchCore]
   · intro t ht
-    simp only [dispatchStep, List.mem_append, List.mem_singleton] at ht
+    simp only [Action.dispatchCore, List.mem_append, List.mem_singleton] at ht
     rcases ht with ht | rfl
     · exact h.tasksOK t ht
-    · constructor <;> simp [Task.unfinished, dispatchStep]
+    · constructor <;> simp [Task.unfinished, Action.dispatchCore]
   · intro k v hm
     obtain ⟨t, ht, ho⟩ := h.logSound k v hm
     refine ⟨t, ?_, ho⟩
     show (s.tasks ++ _)[k]? = some t
     rw [List.getElem?_append_left (List.getElem?_eq_some_iff.mp ht).1]; exact ht
+
+theorem Inv.dispatch {s : State} (h : Inv s) (i : Val) : Inv (dispatchStep s i) := by
+  unfold dispatchStep; split
+  · exact h
+  · exact h.dispatchCore i
 
 theorem Inv.abort {s : State} (h : Inv s) (k : Nat) : Inv (abortStep s k) := by
   apply h.modifyTasks
@@ -235,19 +240,38 @@ theorem Inv.ready {s : State} (h : Inv s) (k : Nat) (v : Val) : Inv (readyStep s
         simp [this] at hd
       · exact ok
 
-theorem Inv.clear {s : State} (h : Inv s) : Inv (clearStep s) := by
+theorem Inv.clearCore {s : State} (h : Inv s) : Inv (clearCore s) := by
   constructor
   · exact h.inFlight
   · exact h.version
-  · simp [clearStep, countP_append, countP, Write.isCompleted, h.logCount]
-  · simp [clearStep, lastWrite_append]
+  · simp [Action.clearCore, countP_append, countP, Write.isCompleted, h.logCount]
+  · simp [Action.clearCore, lastWrite_append]
   · exact h.input
   · exact h.tasksOK
   · intro k v hm
-    simp only [clearStep, List.mem_append, List.mem_singleton] at hm
+    simp only [Action.clearCore, List.mem_append, List.mem_singleton] at hm
     rcases hm with hm | hm
     · exact h.logSound k v hm
     · cases hm
+
+theorem Inv.clear {s : State} (h : Inv s) : Inv (clearStep s) := by
+  unfold clearStep; split
+  · exact h
+  · exact h.clearCore
+
+/-- a step that touches none of the fields the invariant reads -/
+theorem Inv.congr {s s' : State} (h : Inv s)
+    (h1 : s'.inFlight = s.inFlight) (h2 : s'.input = s.input) (h3 : s'.value = s.value)
+    (h4 : s'.version = s.version) (h5 : s'.dispatched = s.dispatched) (h6 : s'.tasks = s.tasks)
+    (h7 : s'.initVal = s.initVal) (h8 : s'.lastInput = s.lastInput) (h9 : s'.log = s.log) : Inv s' := by
+  constructor
+  · rw [h1, h6]; exact h.inFlight
+  · rw [h4, h6]; exact h.version
+  · rw [h9, h4]; exact h.logCount
+  · rw [h3, h7, h9]; exact h.value
+  · rw [h2, h1, h8]; exact h.input
+  · rw [h6, h5]; exact h.tasksOK
+  · rw [h9, h6]; exact h.logSound
 
 /-- the tail of the task: `if in_flight == 0 { input = None }` re-establishes the input clause -/
 theorem Inv.clearInput {s : State}
@@ -403,6 +427,8 @@ theorem Inv.step {s : State} (h : Inv s) (e : Event) : Inv (step s e) := by
     · exact h
     · exact h.pollTask _
   | clear => exact h.clear
+  | suppress b => exact h.congr rfl rfl rfl rfl rfl rfl rfl rfl rfl
+  | dispose => exact h.congr rfl rfl rfl rfl rfl rfl rfl rfl rfl
 
 theorem Inv.run {s : State} (h : Inv s) (evs : List Event) : Inv (run s evs) := by
   induction evs generalizing s with
@@ -438,6 +464,8 @@ theorem initVal_step (s : State) (e : Event) : (step s e).initVal = s.initVal :=
     split
     · rfl
     · exact initVal_pollTask s _
+  | dispatch i => simp only [step, dispatchStep]; split <;> rfl
+  | clear => simp only [step, clearStep]; split <;> rfl
   | _ => rfl
 
 theorem initVal_run (s : State) (evs : List Event) : (run s evs).initVal = s.initVal := by
@@ -571,11 +599,16 @@ theorem abortOK_step {s : State} (hi : Inv s) (hj : ∀ t ∈ s.tasks, AbortOK t
     ∀ t ∈ (step s e).tasks, AbortOK t := by
   cases e with
   | dispatch i =>
-    intro t ht
-    simp only [step, dispatchStep, List.mem_append, List.mem_singleton] at ht
-    rcases ht with ht | rfl
-    · exact hj t ht
-    · intro h; simp at h
+    simp only [step, dispatchStep]
+    split
+    · exact hj
+    · intro t ht
+      simp only [Action.dispatchCore, List.mem_append, List.mem_singleton] at ht
+      rcases ht with ht | rfl
+      · exact hj t ht
+      · intro h; simp at h
+  | suppress b => exact hj
+  | dispose => exact hj
   | abort k =>
     apply abortOK_modify hj
     intro t ht ok
@@ -613,7 +646,9 @@ theorem abortOK_step {s : State} (hi : Inv s) (hj : ∀ t ∈ s.tasks, AbortOK t
     · split
       · exact ok
       · exact ok
-  | clear => exact hj
+  | clear =>
+    simp only [step, clearStep]
+    split <;> exact hj
   | poll j =>
     show ∀ t ∈ (match (readyList s)[j % (readyList s).length]? with
       | none => s
@@ -729,17 +764,17 @@ structure Inv (s : State) : Prop where
 theorem Inv.init : Inv init := by
   constructor <;> simp [M.init, countP]
 
-theorem Inv.dispatch {s : State} (h : Inv s) (i : Val) : Inv (dispatchStep s i) := by
+theorem Inv.dispatchCore {s : State} (h : Inv s) (i : Val) : Inv (dispatchCore s i) := by
   constructor
-  · simp [dispatchStep, countP_append, countP, h.version]
-  · simp [dispatchStep, h.count]; omega
+  · simp [M.dispatchCore, countP_append, countP, h.version]
+  · simp [M.dispatchCore, h.count]; omega
   · intro j t ht
-    simp only [dispatchStep, List.length_append, List.length_singleton] at ht ⊢
+    simp only [M.dispatchCore, List.length_append, List.length_singleton] at ht ⊢
     rcases getElem?_append_single ht with ⟨_, ht⟩ | ⟨_, rfl⟩
     · have := h.inRange j t ht; omega
     · simp
   · intro i' j ti tj hi hj hs
-    simp only [dispatchStep] at hi hj
+    simp only [M.dispatchCore] at hi hj
     rcases getElem?_append_single hi with ⟨_, hi⟩ | ⟨hi1, rfl⟩ <;>
       rcases getElem?_append_single hj with ⟨_, hj⟩ | ⟨hj1, rfl⟩
     · exact h.distinct i' j ti tj hi hj hs
@@ -747,23 +782,42 @@ theorem Inv.dispatch {s : State} (h : Inv s) (i : Val) : Inv (dispatchStep s i) 
     · have := h.inRange j tj hj; simp at hs; omega
     · omega
   · intro j t ht
-    simp only [dispatchStep] at ht ⊢
+    simp only [M.dispatchCore] at ht ⊢
     rcases getElem?_append_single ht with ⟨_, ht⟩ | ⟨_, rfl⟩
     · obtain ⟨r, hr, hs⟩ := h.recs j t ht
       exact ⟨r, by rw [List.getElem?_append_left (h.inRange j t ht)]; exact hr, hs⟩
     · exact ⟨{ input := some i, value := none, pending := true, canceled := false }, by simp, by simp [specSub]⟩
 
-theorem Inv.dispatchSync {s : State} (h : Inv s) (v : Val) : Inv (dispatchSyncStep s v) := by
+theorem Inv.dispatchSyncCore {s : State} (h : Inv s) (v : Val) : Inv (dispatchSyncCore s v) := by
   constructor
-  · simp [dispatchSyncStep, h.version]; omega
-  · simp [dispatchSyncStep, h.count]; omega
+  · simp [M.dispatchSyncCore, h.version]; omega
+  · simp [M.dispatchSyncCore, h.count]; omega
   · intro j t ht
     have := h.inRange j t ht
-    simp [dispatchSyncStep]; omega
+    simp [M.dispatchSyncCore]; omega
   · exact h.distinct
   · intro j t ht
     obtain ⟨r, hr, hs⟩ := h.recs j t ht
-    exact ⟨r, by simp only [dispatchSyncStep]; rw [List.getElem?_append_left (h.inRange j t ht)]; exact hr, hs⟩
+    exact ⟨r, by simp only [M.dispatchSyncCore]; rw [List.getElem?_append_left (h.inRange j t ht)]; exact hr, hs⟩
+
+theorem Inv.dispatch {s : State} (h : Inv s) (i : Val) : Inv (dispatchStep s i) := by
+  unfold dispatchStep; split
+  · exact h
+  · exact h.dispatchCore i
+
+theorem Inv.dispatchSync {s : State} (h : Inv s) (v : Val) : Inv (dispatchSyncStep s v) := by
+  unfold dispatchSyncStep; split
+  · exact h
+  · exact h.dispatchSyncCore v
+
+theorem Inv.congr {s s' : State} (h : Inv s) (h1 : s'.version = s.version) (h2 : s'.subs = s.subs)
+    (h3 : s'.tasks = s.tasks) (h4 : s'.nsync = s.nsync) : Inv s' := by
+  constructor
+  · rw [h1, h4, h3]; exact h.version
+  · rw [h2, h3, h4]; exact h.count
+  · rw [h2, h3]; exact h.inRange
+  · rw [h3]; exact h.distinct
+  · rw [h2, h3]; exact h.recs
 
 theorem Inv.cancel {s : State} (h : Inv s) (k : Nat) : Inv (cancelStep s k) := by
   let g : Task → Task := fun t => if t.sub = k ∧ t.done = false then { t with canceledEarly := true } else t
@@ -924,6 +978,8 @@ theorem Inv.step {s : State} (h : Inv s) (e : Event) : Inv (step s e) := by
     split
     · exact h
     · exact h.pollTask _
+  | suppress b => exact h.congr rfl rfl rfl rfl
+  | dispose => exact h.congr rfl rfl rfl rfl
 
 theorem Inv.run {s : State} (h : Inv s) (evs : List Event) : Inv (run s evs) := by
   induction evs generalizing s with
@@ -939,8 +995,18 @@ theorem step_subs (s : State) (e : Event) (k : Nat) (r : Sub) (hr : s.subs[k]? =
       | none => r) := by
   have hk : k < s.subs.length := (List.getElem?_eq_some_iff.mp hr).1
   cases e with
-  | dispatch i => simp only [step, dispatchStep, target]; rw [List.getElem?_append_left hk]; exact hr
-  | dispatchSync v => simp only [step, dispatchSyncStep, target]; rw [List.getElem?_append_left hk]; exact hr
+  | dispatch i =>
+    simp only [step, dispatchStep, target]
+    split
+    · exact hr
+    · simp only [M.dispatchCore]; rw [List.getElem?_append_left hk]; exact hr
+  | dispatchSync v =>
+    simp only [step, dispatchSyncStep, target]
+    split
+    · exact hr
+    · simp only [M.dispatchSyncCore]; rw [List.getElem?_append_left hk]; exact hr
+  | suppress b => exact hr
+  | dispose => exact hr
   | cancel k' =>
     simp only [step, cancelStep, target, getElem?_modifyAt, hr, Option.map_some]
     by_cases h : k = k'
@@ -1015,6 +1081,95 @@ theorem C17_multi_records (evs : List M.Event) :
 theorem C17_multi_version (evs : List M.Event) :
     (M.run M.init evs).version = (M.run M.init evs).nsync + countP (·.done) (M.run M.init evs).tasks :=
   (M.inv_run evs).version
+
+/-! ## suppression and disposal
+
+The property theorems above are over ALL event lists of the extended event type, so they already
+cover histories in which resource loading is suppressed for a while and histories in which the arena
+handle is disposed while dispatches are in flight: the tasks run on, `pending`/`version`/`value`/`input`
+(read through signals obtained before the disposal) keep following the dispatch history, an aborted
+dispatch still never writes. What is specific to the two new events: -/
+
+/-- while `is_suppressing_resource_load()` a dispatch does nothing at all -/
+theorem C17_suppressed_dispatch_noop (s : State) (i : Val) (h : s.suppress = true) :
+    step s (.dispatch i) = s := by
+  simp [step, dispatchStep, h]
+
+/-- through a disposed handle neither `dispatch` (it panics before touching the action) nor `clear`
+(`try_with_value`) changes anything -/
+theorem C17_disposed_handle_inert (s : State) (h : s.disposed = true) :
+    (∀ i, step s (.dispatch i) = s) ∧ step s .clear = s := by
+  simp [step, dispatchStep, clearStep, h]
+
+/-- disposal itself changes nothing the property observes -/
+theorem C17_dispose_transparent (s : State) :
+    step s .dispose = { s with disposed := true } := rfl
+
+theorem tasks_length_clearInput (s : State) : (clearInputIfIdle s).tasks.length = s.tasks.length := by
+  unfold clearInputIfIdle; split <;> rfl
+
+theorem tasks_length_pollTask (s : State) (id : Nat) : (Action.pollTask s id).tasks.length = s.tasks.length := by
+  unfold Action.pollTask
+  split
+  · rfl
+  · split
+    · rfl
+    · split
+      · simp [Action.abortArm, tasks_length_clearInput, length_modifyAt]
+      · split
+        · simp only [Action.futArm, tasks_length_clearInput, length_modifyAt]
+        · simp [length_modifyAt]
+
+theorem disposed_step (s : State) (e : Event) (h : s.disposed = true) :
+    (step s e).disposed = true ∧ (step s e).tasks.length = s.tasks.length := by
+  cases e with
+  | dispatch i => simp [step, dispatchStep, h]
+  | abort k => exact ⟨h, length_modifyAt _ _ _⟩
+  | dropHandle k => exact ⟨h, length_modifyAt _ _ _⟩
+  | ready k v => exact ⟨h, length_modifyAt _ _ _⟩
+  | clear => simp [step, clearStep, h]
+  | suppress b => exact ⟨h, rfl⟩
+  | dispose => exact ⟨rfl, rfl⟩
+  | poll j =>
+    show (match (readyList s)[j % (readyList s).length]? with
+      | none => s
+      | some id => Action.pollTask s id).disposed = true ∧
+      (match (readyList s)[j % (readyList s).length]? with
+      | none => s
+      | some id => Action.pollTask s id).tasks.length = s.tasks.length
+    split
+    · exact ⟨h, rfl⟩
+    · next id _ =>
+      refine ⟨?_, tasks_length_pollTask s id⟩
+      unfold Action.pollTask
+      split
+      · exact h
+      · split
+        · exact h
+        · split
+          · simp only [Action.abortArm, clearInputIfIdle]; split <;> exact h
+          · split
+            · simp only [Action.futArm, clearInputIfIdle]; split <;> exact h
+            · exact h
+
+/-- disposal is permanent and no dispatch is ever added afterwards: the set of dispatches the
+property talks about is frozen, only their outcomes still change -/
+theorem C17_disposed_no_new_dispatch (s : State) (evs : List Event) (h : s.disposed = true) :
+    (run s evs).disposed = true ∧ (run s evs).tasks.length = s.tasks.length := by
+  induction evs generalizing s with
+  | nil => exact ⟨h, rfl⟩
+  | cons e es ih =>
+    obtain ⟨h1, h2⟩ := disposed_step s e h
+    obtain ⟨h3, h4⟩ := ih (step s e) h1
+    exact ⟨h3, by rw [run_cons, h4, h2]⟩
+
+/-- multi-action: a suppressed `dispatch` and anything through a disposed handle adds no submission
+(`dispatch_sync` is not subject to suppression) -/
+theorem C17_multi_suppressed_disposed_noop (s : M.State) :
+    (s.suppress = true → ∀ i, M.step s (.dispatch i) = s) ∧
+    (s.disposed = true → (∀ i, M.step s (.dispatch i) = s) ∧ ∀ v, M.step s (.dispatchSync v) = s) := by
+  refine ⟨fun h i => ?_, fun h => ⟨fun i => ?_, fun v => ?_⟩⟩ <;>
+    simp [M.step, M.dispatchStep, M.dispatchSyncStep, h]
 
 /-! ## the driver's `idle` op is a list of poll events (so every theorem applies to driver states) -/
 
@@ -1117,6 +1272,31 @@ example :
 example :
     let s := run (init none) [.dispatch 1, .dropHandle 0, .abort 0, .poll 0, .ready 0 7, .poll 0]
     s.value = some 7 ∧ s.version = 1 ∧ s.pending = false := by decide
+
+/-- the handle is disposed while two dispatches are in flight: both are still accounted for, a late
+`dispatch`/`clear` through the dead handle changes nothing -/
+example :
+    let s := run (init none) [.dispatch 10, .dispatch 11, .poll 0, .poll 0, .dispose, .ready 0 100, .poll 0,
+      .dispatch 12, .clear]
+    s.pending = true ∧ s.version = 1 ∧ s.value = some 100 ∧ s.input = some 11 ∧ s.tasks.length = 2 ∧
+    s.disposed = true := by decide
+
+example :
+    let s := run (init none) [.dispatch 10, .dispatch 11, .poll 0, .poll 0, .dispose, .ready 0 100, .poll 0,
+      .abort 1, .ready 1 101, .poll 0]
+    s.pending = false ∧ s.version = 1 ∧ s.value = some 100 ∧ s.input = none ∧
+    s.tasks.map (·.outcome) = [.completed 100, .aborted] := by decide
+
+/-- suppression: only the dispatches made while it is off exist -/
+example :
+    let s := run (init (some 5)) [.suppress true, .dispatch 10, .suppress false, .dispatch 11, .suppress true,
+      .ready 0 100, .poll 0]
+    s.tasks.length = 1 ∧ s.version = 1 ∧ s.value = some 100 ∧ s.pending = false := by decide
+
+example :
+    let s := M.run M.init [.dispatch 10, .suppress true, .dispatch 11, .dispatchSync 77, .suppress false, .dispose,
+      .dispatch 12, .dispatchSync 78, .ready 0 100, .poll 0]
+    s.version = 2 ∧ s.subs = [⟨none, some 100, false, false⟩, ⟨none, some 77, false, false⟩] := by decide
 
 /-- multi-action: three overlapping submissions, one canceled before it resolves, one `dispatch_sync` -/
 example :
